@@ -204,3 +204,70 @@ func ZZ_C06_M2() {
 	}
 	zzverif.Reach("M2 end")
 }
+
+// ZZ_C06_M3: contract traffic on the mempool path.  A contract exists; while
+// block 3 is open the node serves a CheckTx of a transfer to that contract or
+// of a call of it (symbolic value).  Block results and application hashes of
+// blocks 3 and 4 must not depend on it.
+func ZZ_C06_M3() {
+	govp := ctrlertypes.Test1GovParams()
+	g := zzNewGenesisBanded(5, 2, govp)
+	a, b := g.start(), g.start()
+	var pa, pb []byte
+	prog := zzverif.Choose("program", 2) * 7 // STOP, or the storage cell
+	for _, n := range []*zzNode{a, b} {
+		n.emptyBlock(0)
+		n.begin(0, nil, nil)
+		p := n.deploy(1, zzInitCode(prog, nil))
+		n.end()
+		if n == a {
+			pa = p
+		} else {
+			pb = p
+		}
+	}
+	zzverif.Assert(zzverif.SameBytes(pa, pb), "M3 same contract address on both replicas")
+	gas, price := uint64(200000), govp.GasPrice()
+	val := zzverif.NondetU256Below("check.value", new(uint256.Int).Lsh(uint256.NewInt(1), 64))
+	chk := &zzTx{from: 3, typ: ctrlertypes.TRX_TRANSFER, amount: val, gas: gas, gasPrice: price, nonce: 0, signer: 3}
+	if zzverif.Choose("check.isCall", 2) == 1 {
+		chk.typ, chk.payload = ctrlertypes.TRX_CONTRACT, &ctrlertypes.TrxPayloadContract{Data: zzCellWord(1)}
+	}
+	rawC := b.encodeTo(chk, pb)
+	blockTx := &zzTx{from: 4, typ: ctrlertypes.TRX_CONTRACT, amount: uint256.NewInt(0), gas: gas, gasPrice: price, nonce: 0, signer: 4,
+		payload: &ctrlertypes.TrxPayloadContract{Data: zzCellWord(2)}}
+	raw := a.encodeTo(blockTx, pa)
+	slot := zzverif.Choose("inject.slot", 4) // after BeginBlock | after the tx | after EndBlock | after Commit
+	run := func(n *zzNode, withInject bool, raws ...[]byte) *zzBlockOut {
+		out := &zzBlockOut{}
+		inj := func(at int) {
+			if withInject && at == slot {
+				n.app.CheckTx(abcitypes.RequestCheckTx{Tx: rawC, Type: abcitypes.CheckTxType_New})
+			}
+		}
+		n.begin(0, nil, nil)
+		inj(0)
+		for _, r0 := range raws {
+			r := n.app.DeliverTx(abcitypes.RequestDeliverTx{Tx: r0})
+			out.codes, out.gasUsed = append(out.codes, r.Code), append(out.gasUsed, r.GasUsed)
+		}
+		inj(1)
+		e := n.app.EndBlock(abcitypes.RequestEndBlock{Height: n.height})
+		out.ups = e.ValidatorUpdates
+		inj(2)
+		out.hash = n.app.Commit().Data
+		inj(3)
+		return out
+	}
+	withTx := zzverif.Choose("block3.has.tx", 2) == 1
+	var oa3, ob3 *zzBlockOut
+	if withTx {
+		oa3, ob3 = run(a, false, raw), run(b, true, raw)
+	} else {
+		oa3, ob3 = run(a, false), run(b, true)
+	}
+	zzSameOut(oa3, ob3, "M3 block 3")
+	oa4, ob4 := run(a, false), run(b, false)
+	zzSameOut(oa4, ob4, "M3 block 4")
+	zzverif.Reach("M3 end")
+}
